@@ -25,6 +25,15 @@ HARMSTG = cv("x", 1) + ("harmonic {\n  name r\n  colvars x\n  centers 1.0\n  for
 HRES = ("colvar {\n  name d\n  distancePairs {\n    group1 { atomNumbers 1 2 }\n    group2 { atomNumbers 3 4 }\n  }\n}\n"
         "histogramRestraint {\n  name hr\n  colvars d\n  lowerBoundary 0.0\n  upperBoundary 8.0\n  width 1.0\n"
         "  refHistogram 0.125 0.125 0.125 0.125 0.125 0.125 0.125 0.125\n}\n")
+# staged changes of a restraint: the companions that make targetNumSteps a modulus at the very next step
+HARMSTGC = cv("x", 1) + ("harmonic {\n  name r\n  colvars x\n  centers 1.0\n  forceConstant 2.0\n  targetCenters 3.0\n"
+                         "  targetNumSteps 2\n  targetNumStages 2\n}\n")
+HARMSCHED = cv("x", 1) + ("harmonic {\n  name r\n  colvars x\n  centers 1.0\n  forceConstant 2.0\n  targetForceConstant 4.0\n"
+                          "  targetNumSteps 2\n  lambdaSchedule 0.0 0.5 1.0\n}\n")
+WALLSDEC = cv("x", 1) + ("harmonicWalls {\n  name r\n  colvars x\n  upperWalls 3.0\n  forceConstant 2.0\n  decoupling on\n"
+                         "  targetNumSteps 2\n  targetNumStages 2\n}\n")
+LINSTG = cv("x", 1) + ("linear {\n  name r\n  colvars x\n  centers 1.0\n  forceConstant 2.0\n  targetForceConstant 4.0\n"
+                       "  targetNumSteps 2\n  targetNumStages 2\n}\n")
 RUNAVE = cv("x", 1, "  runAve on\n  runAveLength 3\n  runAveStride 1\n")
 CORR = cv("x", 1, "  corrFunc on\n  corrFuncType coordinate\n  corrFuncLength 2\n  corrFuncStride 1\n  corrFuncOffset 0\n")
 CORR1 = CORR.replace("corrFuncOffset 0", "corrFuncOffset 1")
@@ -73,6 +82,11 @@ ENTRIES = [
     ("abf.outputFreq", ABFH, ["abf"], "outputFreq", 3),
     ("harmonic.targetNumSteps", HARMMOV, ["harmonic"], "targetNumSteps", 3),
     ("harmonic.targetNumStages", HARMSTG, ["harmonic"], "targetNumStages", 3),
+    ("harmonicstgk.targetNumSteps", HARMSTG, ["harmonic"], "targetNumSteps", 3),
+    ("harmonicstgc.targetNumSteps", HARMSTGC, ["harmonic"], "targetNumSteps", 3),
+    ("harmonicsched.targetNumSteps", HARMSCHED, ["harmonic"], "targetNumSteps", 3),
+    ("wallsdec.targetNumSteps", WALLSDEC, ["harmonicwalls"], "targetNumSteps", 3),
+    ("linearstg.targetNumSteps", LINSTG, ["linear"], "targetNumSteps", 3),
     ("histrestr.width", HRES, ["histogramrestraint"], "width", 3),
     ("histrestr.lowerBoundary", HRES, ["histogramrestraint"], "lowerBoundary", 3),
     ("histrestr.upperBoundary", HRES, ["histogramrestraint"], "upperBoundary", 3),
@@ -156,6 +170,11 @@ MODEL = {
     "abf.outputFreq": ("abf", dict(_R, outfreq="2", full="2", hist="2"), "outfreq"),
     "harmonic.targetNumSteps": ("moving", dict(_R, moving="on", nsteps="4"), "nsteps"),
     "harmonic.targetNumStages": ("moving", dict(_R, moving="on", nsteps="2", nstages="2"), "nstages"),
+    "harmonicstgk.targetNumSteps": ("moving", dict(_R, moving="on", nsteps="2", nstages="2"), "nsteps"),
+    "harmonicstgc.targetNumSteps": ("moving", dict(_R, moving="on", nsteps="2", nstages="2"), "nsteps"),
+    "harmonicsched.targetNumSteps": ("moving", dict(_R, moving="on", nsteps="2", nstages="2"), "nsteps"),
+    "wallsdec.targetNumSteps": ("moving", dict(_R, moving="on", nsteps="2", nstages="2"), "nsteps"),
+    "linearstg.targetNumSteps": ("moving", dict(_R, moving="on", nsteps="2", nstages="2"), "nsteps"),
     "histrestr.width": ("histrestr", dict(lower="0.0", upper="8.0", width="1.0"), "width"),
     "histrestr.lowerBoundary": ("histrestr", dict(lower="0.0", upper="8.0", width="1.0"), "lower"),
     "histrestr.upperBoundary": ("histrestr", dict(lower="0.0", upper="8.0", width="1.0"), "upper"),
